@@ -649,6 +649,36 @@ func forEachKeyGridCell(sh, nsh int, f func(cell string, wire []byte)) int {
 			}
 		}
 	}
+	// OKP private keys whose d is a whole 64-octet secret key in the layouts libraries hand around: seed || public
+	// key (ed25519.PrivateKey, libsodium), public key || seed, seed || another key's public key, seed || seed:
+	// all longer than the curve's size
+	for _, ci := range []int64{6, 4, 7} {
+		x0, _, d0 := c15Coords(6)
+		other := ed25519.NewKeyFromSeed([]byte("another-c15-ed25519-seed-32-b!!!"))[32:]
+		for li, long := range [][]byte{append(append([]byte{}, d0...), x0...), append(append([]byte{}, x0...), d0...), append(append([]byte{}, d0...), other...), append(append([]byte{}, d0...), d0...)} {
+			for _, withX := range []bool{true, false} {
+				for _, alg := range []int64{0, -8} {
+					for _, op := range []int{0, 1, 2} {
+						cnt++
+						if cnt%nsh != sh {
+							continue
+						}
+						m := rc.Map(rc.E(rc.Int(1), rc.Int(1)), rc.E(rc.Int(-1), rc.Int(ci)), rc.E(rc.Int(-4), rc.Bytes(long)))
+						if withX {
+							m.M = append(m.M, rc.E(rc.Int(-2), rc.Bytes(x0)))
+						}
+						if alg != 0 {
+							m.M = append(m.M, rc.E(rc.Int(3), rc.Int(alg)))
+						}
+						if op != 0 {
+							m.M = append(m.M, rc.E(rc.Int(4), rc.Array(rc.Int(int64(op)))))
+						}
+						f(fmt.Sprintf("okp-long-d kty=1 crv=%d layout=%d x=%v alg=%d ops=%d", ci, li, withX, alg, op), rc.Encode(m, nil))
+					}
+				}
+			}
+		}
+	}
 	return cnt
 }
 
